@@ -330,7 +330,7 @@ func checkC15(c *Ctx, r *Report) {
 					// the loop ranges over s.nodes
 					okAfter = okAfter && len(findInstrs(body, func(in ssa.Instruction) bool {
 						u, ok := in.(*ssa.UnOp)
-						return ok && u.Op == token.MUL && isLoadOfField(ebP + ".sub.nodes")(u)
+						return ok && u.Op == token.MUL && isLoadOfField(ebP+".sub.nodes")(u)
 					})) >= 1
 				}
 			}
@@ -421,7 +421,7 @@ func checkC15(c *Ctx, r *Report) {
 			nKL++
 			assume := map[ssa.Value]bool{}
 			allInstrs(f, func(x ssa.Instruction) {
-				if v, ok := x.(ssa.Value); ok && isLoadOfField(nodeT + ".keepLast")(v) {
+				if v, ok := x.(ssa.Value); ok && isLoadOfField(nodeT+".keepLast")(v) {
 					assume[v] = true
 				}
 			})
@@ -472,7 +472,9 @@ func checkC15(c *Ctx, r *Report) {
 		return ok && calleeKey(call) == "builtin.len" && isLoadOfField(nodeT+".sinks")(call.Call.Args[0])
 	}
 	if f := r5.need(busM("tryDropNode")); f != nil {
-		dels := findInstrs(f, func(in ssa.Instruction) bool { return isCallTo(in, "builtin.delete") && isFieldWrite(in, busT+".nodes") })
+		dels := findInstrs(f, func(in ssa.Instruction) bool {
+			return isCallTo(in, "builtin.delete") && isFieldWrite(in, busT+".nodes")
+		})
 		r5.guard(f, "delete(b.nodes, typ)", dels, "nEmitters == 0", edgeExcl(nEmitters, isZero, ordGT), nil)
 		r5.guard(f, "delete(b.nodes, typ)", dels, "len(sinks) == 0", edgeExcl(lenSinks, isZero, ordGT), nil)
 		// the test and the delete are in one critical section of b.lk
@@ -551,9 +553,9 @@ func checkC15(c *Ctx, r *Report) {
 func isFreeVarOrParam(v ssa.Value, name string) bool {
 	switch x := v.(type) {
 	case *ssa.FreeVar:
-		return x.Name() == name
+		return freeVarIs(x, name)
 	case *ssa.Parameter:
-		return x.Name() == name
+		return paramIs(x, name)
 	case *ssa.UnOp:
 		if x.Op == token.MUL {
 			return isFreeVarOrParam(x.X, name)
